@@ -1,6 +1,7 @@
 package main
 
 import (
+	"sync"
 	"fmt"
 	"go/constant"
 	"go/token"
@@ -29,6 +30,10 @@ type Engine struct {
 	typeByID []types.Type
 	srcLines map[string][]string
 	warnings map[string]bool
+	retainMu   sync.Mutex
+	retainMemo map[*ssa.Parameter]bool
+	retainBusy map[*ssa.Parameter]bool
+	retainCycles int
 	assumptions map[string]bool
 	readsets map[*ssa.Function]map[string]string
 	timeout int // seconds per query
